@@ -66,7 +66,7 @@ pub fn guard<T>(budget: u64, f: impl FnOnce() -> T) -> Outcome<T> {
                 let hits = verif::site_hits();
                 let mut hot: Vec<(usize, u64)> = hits.iter().cloned().enumerate().filter(|x| x.1 > 0).collect();
                 hot.sort_by(|a, b| b.1.cmp(&a.1).then(a.0.cmp(&b.0)));
-                hot.truncate(4);
+                hot.truncate(8);
                 Outcome::Budget { site: rest.trim().parse().unwrap_or(0), hot }
             } else {
                 Outcome::Panic { sig: site_signature(&site), site }
